@@ -35,6 +35,7 @@ type createGate struct {
 	reached  chan struct{}
 	release  chan struct{}
 	labels   []string
+	onPark   func() // optional: runs in the goroutine that is about to be parked, before `reached` is closed
 }
 
 func (g *createGate) Do(label string, op func() error) error {
@@ -48,6 +49,9 @@ func (g *createGate) Do(label string, op func() error) error {
 				g.labels = append(g.labels, path)
 				g.mu.Unlock()
 				if n == g.gateAt {
+					if g.onPark != nil {
+						g.onPark()
+					}
 					close(g.reached)
 					<-g.release
 				}
